@@ -188,6 +188,8 @@ func init() {
 		c.st.Assume(Implies(Eq(err.Tag, Num(0)), And(Eq(UF("toBech32", []string{SStr}, SStr, addr.T), a[0].T), Gt(StrLen(addr.T), Num(0)))))
 		// empty input is an error
 		c.st.Assume(Implies(Eq(a[0].T, emptyStr), Neq(err.Tag, Num(0))))
+		// whether a string decodes is a function of the string (bech32ok), so validation results carry over to later calls
+		c.st.Assume(Eq(Eq(err.Tag, Num(0)), UF("bech32ok", []string{SStr}, SBool, a[0].T)))
 		res := iteVal(Eq(err.Tag, Num(0)), addr, strVal(bytesNil, c.resType(0)))
 		return &Val{K: VTuple, Typ: c.sig.Results(), Fields: []*Val{res, err}}
 	})
@@ -453,7 +455,10 @@ func init() {
 		return coin
 	})
 	reg(B+"GetAllBalances", func(c *LibCtx, a []*Val) *Val {
-		return coinsVal(Select(ghostT(c.st, "bal"), a[2].T), c.resType(0))
+		// x/bank never stores a negative balance: the returned coins are valid
+		r := Select(ghostT(c.st, "bal"), a[2].T)
+		c.st.Assume(coinsAllGE0(r))
+		return coinsVal(r, c.resType(0))
 	})
 	reg(B+"SpendableCoins", func(c *LibCtx, a []*Val) *Val {
 		// spendable = balance - locked, 0 <= spendable <= balance
